@@ -10,7 +10,10 @@ def gen_obj(rng, torch, torchtt):
     kind = rng.choice(["cores", "cores", "svd", "svd-op", "sliced", "sliced-op", "sliced-op-int", "used-as-operand", "transposed", "arith"])
     d = rng.choice([1, 2, 3, 4, 5, 6])
     if kind == "cores":
-        return history.rand_tt(rng, dtype, ttm=rng.random() < 0.4, d=d), kind
+        o_ = history.rand_tt(rng, dtype, ttm=rng.random() < 0.4, d=d)
+        if dtype.is_complex and rng.random() < 0.4:                                 # lazily conjugated core views (conj() of a complex object), order 1 included
+            return o_.conj(), "conjugated"
+        return o_, kind
     if kind in ("svd", "svd-op"):
         N = [rng.choice([1, 2, 3]) for _ in range(d if kind == "svd" else 2 * min(d, 3))]
         A = np.zeros(N)
@@ -63,6 +66,8 @@ def run(tier, seed, replay=None):
     with tempfile.TemporaryDirectory() as td:
         for i in range(n):
             x, kind = gen_obj(rng, torch, torchtt)
+            if i in (3, 7, 11):                 # engineered: the conjugate of an order-1 complex tensor / operator (full() is a lazily conjugated view of the single core)
+                x = history.rand_tt(random.Random(1234 + i), [torch.complex128, torch.complex64, torch.complex128][(i - 3) // 4], ttm=i == 7, d=1).conj(); kind = "conjugated"
             dist[kind] = dist.get(kind, 0) + 1
             desc = {"kind": kind, "ttm": bool(x.is_ttm), "N": [int(v) for v in x.N], "R": [int(v) for v in x.R], "dtype": str(x.cores[0].dtype),
                     "contiguous": [bool(c.is_contiguous()) for c in x.cores], "R_types": sorted(set(type(r).__name__ for r in x.R))}
